@@ -559,7 +559,57 @@ def rule_unbuffered(ctx, R="C17/unbuffered"):
                   "the file strategy reads through a stream position (%s): state of an earlier read influences this one" % sorted({(CalleeView(fb.term(x)["callee"]).short or "").split("::")[-1] for x in seq}))
 
 
+def rule_whole_request(ctx, R="C17/whole-request"):
+    """`a value or an error` for the range that was ASKED for: read_to_vec hands the reader a buffer of exactly the requested length
+    (no clamp: a caller that asked for a 32 MiB stack or a 17 MiB string table would silently get a prefix), and it fails only for the
+    reasons a request can legitimately fail — the length is not a valid allocation, the allocation failed, the read failed — never
+    because the length exceeds a constant (the fallible allocation already answers that question)."""
+    b = ctx.body(R, MR + "::read_to_vec")
+    if b is None:
+        return
+    o = Origin(b)
+    rd = [(bi, o.call_args(bi)) for bi, t in b.calls(lambda c: c.is_(MR + "::read"))]
+    ctx.floor(R, "read call in read_to_vec", len(rd), 1)
+
+    def is_len(e):
+        e = core(e)
+        while e[0] == "call" and e[1].split("::")[-1] in ("get", "into", "from") and e[2]:
+            e = core(e[2][0])
+        return e == ("param", 3)
+    for bi, a in rd:
+        buf = strip(a[2])
+        lens = []
+        if buf[0] == "call" and buf[1].split("::")[-1] in ("from_raw_parts_mut", "from_raw_parts") and len(buf[2]) == 2:
+            lens = [buf[2][1]]
+        elif buf[0] == "call" and buf[1].split("::")[-1] in ("deref_mut", "as_mut_slice", "as_mut", "index_mut", "spare_capacity_mut") and buf[2]:
+            lens = [q[2][1] for q in walk(buf) if q[0] == "call" and q[1].split("::")[-1] in ("resize", "from_elem", "with_capacity", "try_reserve_exact") and len(q[2]) > 1]
+        ok = bool(lens) and all(is_len(x) for x in lens)
+        ctx.check(ok, R, "buffer=request", b.where(bi), "the reader is handed a buffer of exactly the requested length", "the buffer handed to the reader has length %s, not the requested length" % ([show(x)[:60] for x in lens] or show(buf)[:80]))
+    ex = Exits(b)
+    bad = []
+    for eb in sorted(ex.err_blocks()):
+        dnf = conditions(b, eb, origin=o)
+        for c in dnf or []:
+            for (q, v) in c:
+                qc = core(q)
+                if qc[0] == "bin" and qc[1] in ("Lt", "Le", "Gt", "Ge", "Eq", "Ne") and any(x == ("param", 3) for x in walk(qc)) and any(is_const(core(y)) for y in (qc[2], qc[3])):
+                    bad.append("%s == %s" % (show(qc)[:70], v))
+    ctx.check(not bad, R, "no-length-cap", b.where(0), "no request is refused because its length exceeds a constant", "read_to_vec fails depending on the requested length against a constant (%s): a large but valid request is refused" % "; ".join(sorted(set(bad))[:2]))
+    # and the callers' length is the requested one too: copy_from_process forwards (src, length)
+    for body in ctx.prog.bodies:
+        if body.short.endswith("PtraceDumper>::copy_from_process") or body.short.endswith("PtraceDumper::copy_from_process"):
+            bo = Origin(body)
+            for bi, t in body.calls(lambda c: c.is_(MR + "::read_to_vec")):
+                a = bo.call_args(bi)
+                ln = strip(a[2])
+                while ln[0] == "call" and ln[1].split("::")[-1] in ("ok_or", "ok_or_else") and ln[2]:
+                    ln = strip(ln[2][0])
+                okf = a[1] == ("param", 2) and ln[0] == "call" and ln[1].split("::")[-1] == "new" and core(ln[2][0]) == ("param", 3)
+                ctx.check(okf, R, "copy_from_process-forwards", body.where(bi), "copy_from_process reads (src, length) as given", "copy_from_process reads (%s, %s)" % (show(a[1])[:40], show(ln)[:60]))
+
+
 def run(ctx):
+    rule_whole_request(ctx)
     rule_unbuffered(ctx)
     rule_reader_identity(ctx)
     rule_count_from_strategy(ctx)
